@@ -20,7 +20,7 @@ from vlib.core import Stage, fail
 ID = "C12"
 MANIFEST = {
     "category": "exploration",
-    "text": "Schedule exploration by generated-input search: (single) AHB expressions with several modal-mark parts, repeated keys, hints, format constraints and packages occurring several times x content evaluation results x a schedule (list of yield counts consumed call by call by the harness's async RcEvaluator / FcEvaluator methods, HintsProvider and PackageResolver; every third rc method is a plain function). The results of evaluate_ahb_expression_tree (incl. package expansion), requirement_constraint_evaluation and format_constraint_evaluation under the schedule must equal the results under the all-zero schedule and the reference evaluator's selection/outcome; the expanded tree must equal the zero-schedule tree. (concurrent) 2-5 jobs - AHB evaluations and is_valid_expression calls - run as concurrent tasks with yielding ContentEvaluationResult-based evaluators - or a method-based RcEvaluator whose evaluate_<key> coroutines derive their answer from the evaluatable data they are handed - that read the job's own result from a ContextVar; every job must equal its run alone. For is_valid_expression jobs on expressions with 1-3 requirement constraints the harness records which evaluatable data the evaluations of the call were served: exactly the 3^m possible states, each evaluation its own. A third of the concurrent cases use a HintsProvider whose get_hint_text is a plain function reading the job's context-local data. Half of the is_valid_expression jobs go on to evaluate their expression in the same task; the outcome is judged by the reference and compared between the solo and the concurrent run.",
+    "text": "Schedule exploration by generated-input search: (single) AHB expressions with several modal-mark parts, repeated keys, hints, format constraints and packages occurring several times x content evaluation results x a schedule (list of yield counts consumed call by call by the harness's async RcEvaluator / FcEvaluator methods, HintsProvider and PackageResolver; every third rc method is a plain function). The results of evaluate_ahb_expression_tree (incl. package expansion), requirement_constraint_evaluation and format_constraint_evaluation under the schedule must equal the results under the all-zero schedule and the reference evaluator's selection/outcome; the expanded tree must equal the zero-schedule tree. (concurrent) 2-5 jobs - AHB evaluations and is_valid_expression calls - run as concurrent tasks with yielding ContentEvaluationResult-based evaluators - or a method-based RcEvaluator whose evaluate_<key> coroutines derive their answer from the evaluatable data they are handed - that read the job's own result from a ContextVar; every job must equal its run alone. For is_valid_expression jobs on expressions with 1-3 requirement constraints the harness records which evaluatable data the evaluations of the call were served: exactly the 3^m possible states, each evaluation its own. A third of the concurrent cases use a HintsProvider whose get_hint_text is a plain function reading the job's context-local data. Half of the is_valid_expression jobs go on to evaluate their expression in the same task; the outcome is judged by the reference and compared between the solo and the concurrent run. Stage failures: one requirement constraint method raises after its pauses and a hint text is missing; the error that reaches the caller must be the one of the zero schedule.",
     "note": "Trusted: the schedule harness (vlib/sched.py), the reference evaluator, attrs equality of result objects. Delays enumerate completion orders among already started awaitables of one single-threaded event loop; threads are out of scope. Process configuration by shard (vlib/sut.py; recorded in replay files): plain / parse caches preheated beyond their size / warnings attributed to ahbicht raised as errors / logging fully enabled with every record rendered; one event loop per process or a new one per call; five process time zones; the hash seed is the shard number; namesakes of ahbicht's marshmallow schema classes are registered.",
     "technique": "property-based schedule exploration (harness-controlled yield counts) with differential (zero schedule) and reference oracles",
 }
@@ -103,6 +103,45 @@ def classify_single(case, info):
     if case["table"]:
         labels.append("with-packages")
     return labels, info["swapped"] > 0
+
+
+# ---------------------------------------------------------------------------------------------------- failures
+
+
+def check_failures(case):
+    """
+    One user-supplied component fails (a requirement constraint method raises after its pauses) and a hint text is
+    missing: which error reaches the caller must not depend on the schedule either - it is the one obtained when
+    nothing yields.  (Exactly one failing evaluator method: with two, the first one in time wins already in asyncio.gather.)
+    """
+    api = evalhelp.api()
+    outcomes = []
+    for delays in ([], case["delays"]):
+        schedule = sched.Schedule(delays)
+        cer = case["cer"]
+        hints = {k: v for k, v in cer["hints"].items() if k not in case["missing_hints"]}
+        sut.configure(sched.make_providers(schedule, rc=cer["rc"], fc=cer["fc"], hints=hints, rc_raises=case["failing_rc"]))
+        res = sut.call(api.requirement_constraint_evaluation, case["s"])
+        outcomes.append((f"raised {res.type}: {res.exc}"[:160] if not res.ok else repr(res.value)))
+    if outcomes[0] != outcomes[1]:
+        fail("schedule-dependent", f"requirement_constraint_evaluation({case['s']!r}) with a failing evaluator for {case['failing_rc']} and "
+             f"no hint text for {case['missing_hints']}: {outcomes[1]} under schedule {case['delays']}, but {outcomes[0]} when nothing yields")  # fmt: skip
+    return {"raised": outcomes[0].startswith("raised")}
+
+
+def strategy_failures(tier):  # pylint:disable=unused-argument
+    @st.composite
+    def build(draw):
+        rc_keys = draw(st.lists(st.sampled_from(vtree.RC), min_size=1, max_size=3, unique=True))
+        hint_keys = draw(st.lists(st.sampled_from(vtree.HINTS), min_size=1, max_size=2, unique=True))
+        atoms = [["rc", k] for k in rc_keys] + [["hint", k] for k in hint_keys]
+        atoms = draw(st.permutations(atoms))
+        ast = ["and", list(atoms)]
+        cer = draw(vtree.g_cer(weights="FFU"))
+        return {"s": gen.render(draw, ast, redundant=False), "cer": cer, "failing_rc": [draw(st.sampled_from(rc_keys))],
+                "missing_hints": draw(st.sampled_from([[], [hint_keys[0]], list(hint_keys)])), "delays": _delays(draw, 12)}
+
+    return build()
 
 
 # -------------------------------------------------------------------------------------------------- concurrent
@@ -387,6 +426,10 @@ STAGES = [
           budget={"quick": 200, "thorough": 3000}, key=lambda c: [c["s"], c["cer"], c["delays"]],
           floors={"completion-order-swapped": 0.3, "with-packages": 0.1},
           sample=lambda c: {"s": c["s"], "rc": c["cer"]["rc"], "delays": c["delays"]}),
+    Stage(name="failures", kind="hyp", check=check_failures, strategy=strategy_failures,
+          classify=lambda c, i: (["missing-hints=" + str(len(c["missing_hints"]))], bool(c["missing_hints"]) and any(c["delays"])),
+          budget={"quick": 60, "thorough": 600}, key=lambda c: [c["s"], c["failing_rc"], c["missing_hints"], c["delays"]],
+          sample=lambda c: {"s": c["s"], "failing": c["failing_rc"], "missing_hints": c["missing_hints"], "delays": c["delays"]}),
     Stage(name="concurrent", kind="hyp", check=check_concurrent, classify=classify_concurrent, strategy=strategy_concurrent,
           budget={"quick": 100, "thorough": 1500},
           floors={"jobs-interleaved": 0.4, "with-validity-check": 0.2},
